@@ -116,12 +116,13 @@ func TestC29(t *testing.T) {
 	rec.Assumptions = []string{
 		"model of C29 as in DESIGN.md §4: a variable used by >= 2 nested scopes has one cell per call of the outermost function (also when the owner is a block or a block parameter), all others are per call of their scope",
 		"programs rejected by the compiler's static 'possibly uninitialized variable' check (constant propagation) are not programs of the quantifier: discarded and counted",
-		"runs that leave the documented part are discarded and counted: ordering (<) of non-numbers, return into a function that has already returned, comparing two run-time error messages, size bounds (fuel 4000 steps, depth 40, |int| <= 1e12)",
+		"runs that leave the documented part are discarded and counted: ordering (<) of non-numbers, return into a function that has already returned, comparing two run-time error messages, size bounds (fuel 6000 steps, depth 40, |int| <= 1e12)",
 		"only the class of run-time errors is compared (uninitialized variable / can't call / can't convert / missing argument / too many arguments), thrown strings are compared exactly",
 	}
 	defer rec.Write()
 
 	kfBreak, kfBreakOK := kf.Known("C29", "break-out-of-try")
+	kfS255, kfS255OK := kf.Known("C29", "shared-slot-255-assert")
 
 	rt.Check(t, rec, "model", 3000, 50000, func(t *rapid.T) {
 		root := genProgram(t)
@@ -144,7 +145,30 @@ func TestC29(t *testing.T) {
 		if rterr != nil {
 			t.Fatalf("Go runtime error %v\nprogram:\n%s", rterr, src)
 		}
+		needLocals, needShared := slotDemand(root)
+		overLimit := needLocals > maxLocalSlots || needShared > maxSharedSlots
+		if root.boundary {
+			rec.Label(fmt.Sprintf("boundary_local_slots_%d_shared_%d", needLocals, needShared))
+		}
+		if needShared == maxSharedSlots {
+			// legal according to blocks.go and Closure_Changes.md (slots 192-255)
+			if kfS255OK {
+				rec.Case(false, src)
+				rec.Excluded("shared-slot-255-assert")
+				rec.Known(kfS255.What)
+				return
+			}
+		}
+		if overLimit && cerr == "" {
+			t.Fatalf("a scope needs %d local slots / %d shared variables (limits %d / %d) but the program was compiled\nprogram:\n%s", needLocals, needShared, maxLocalSlots, maxSharedSlots, src)
+		}
 		if cerr != "" {
+			if overLimit && strings.Contains(cerr, "too many") {
+				// refusal at and beyond the documented limit
+				rec.Case(false, src)
+				rec.Label("refused_beyond_slot_limit")
+				return
+			}
 			if strings.Contains(cerr, "possibly uninitialized variable") {
 				rec.Case(false, src)
 				rec.Label("discard_static_uninit_check")
@@ -179,6 +203,9 @@ func TestC29(t *testing.T) {
 			srcA := renderProgram(root)
 			s.body = old
 			gotA, cerrA, rterrA := realOutcome(srcA)
+			if root.boundary && strings.Contains(cerrA, "too many") {
+				gotA, cerrA = want, ""
+			}
 			if rterrA != nil || cerrA != "" || gotA != want {
 				t.Fatalf("inserting an unreachable `if false { return 0 }` changed the result\n before: %v\n after:  %v %s %v\nprogram:\n%s", want, gotA, cerrA, rterrA, srcA)
 			}
@@ -193,6 +220,14 @@ func TestC29(t *testing.T) {
 			srcB := renderProgram(root)
 			s.body = old
 			gotB, cerrB, rterrB := realOutcome(srcB)
+			if root.boundary && strings.Contains(cerrB, "too many") {
+				gotB, cerrB = want, "" // the two extra variables exceed the limit
+			}
+			if needShared+1 == maxSharedSlots && cerrB != "" && kfS255OK {
+				rec.Excluded("shared-slot-255-assert")
+				rec.Known(kfS255.What)
+				gotB, cerrB = want, ""
+			}
 			if rterrB != nil || cerrB != "" || gotB != want {
 				t.Fatalf("adding an unused shared variable changed the result\n before: %v\n after:  %v %s %v\nprogram:\n%s", want, gotB, cerrB, rterrB, srcB)
 			}
